@@ -56,12 +56,18 @@ type Segment struct {
 func (s *Segment) WriteTo(w io.Writer, _ chan struct{}) (int64, error) {
 	bw := bufio.NewWriter(w)
 
-	n, err := s.data.WriteTo(w)
+	// hash the data section while it is written: footer.crc is the CRC of
+	// the data section only for a segment built in memory, a loaded segment
+	// holds the CRC of the whole file there
+	cw := newCountHashWriter(w)
+	n, err := s.data.WriteTo(cw)
 	if err != nil {
 		return n, fmt.Errorf("error persisting segment: %w", err)
 	}
 
-	err = persistFooter(s.footer, bw)
+	footerOut := *s.footer
+	footerOut.crc = cw.Sum32()
+	err = persistFooter(&footerOut, bw)
 	if err != nil {
 		return n, fmt.Errorf("error persisting segment footer: %w", err)
 	}
